@@ -272,4 +272,31 @@ theorem source_boc_roundtrip (c : Cell) (tx : TxCapture) (h : captureTx H c = .o
   · rw [horder, hs]
   · exact C02.table_refines_tree H t (t.size + 1) root c (by rw [horder, hs])
 
+/-- **SourceBoc and Hash track the last decode.** One Transaction variable, reused for any sequence of decodes with
+`SourceBoc()` and `Hash()` calls interleaved in any order, starting from any state: afterwards `Hash()` is the
+representation hash of the LAST successfully decoded source cell and `SourceBoc()` is the serialisation of exactly
+that cell — never of an earlier one (so it parses back to a cell with the reported hash, `source_boc_roundtrip`). -/
+theorem source_boc_tracks_last_decode {β} (serialize : Cell → Outcome β) (ops : List TxOp) (v : TxVar) (c : Cell)
+    (hlast : lastDecoded H ops = some c) :
+    ∃ t, TxVar.run H v ops = some t ∧ c.reprHash H = .ok t.hash ∧
+      TxVar.sourceBoc serialize (TxVar.run H v ops) = serialize c := by
+  have h := run_lastDecoded H ops v
+  rw [hlast] at h
+  obtain ⟨t, hr, hs, hh⟩ := h
+  refine ⟨t, hr, hh, ?_⟩
+  rw [hr]
+  simp only [TxVar.sourceBoc, TxCapture.sourceBoc, hs]
+
+/-- reading does not change the variable: `SourceBoc()` and `Hash()` are idempotent and commute -/
+theorem source_boc_and_hash_do_not_change_state (v : TxVar) (ops : List TxOp)
+    (hro : ∀ op ∈ ops, op = TxOp.sourceBoc ∨ op = TxOp.hash) : TxVar.run H v ops = v := by
+  induction ops generalizing v with
+  | nil => rfl
+  | cons op rest ih =>
+    have h1 : TxVar.step H v op = v := by
+      rcases hro op (by simp) with h | h <;> subst h <;> rfl
+    show TxVar.run H (TxVar.step H v op) rest = v
+    rw [h1]
+    exact ih v (fun o ho => hro o (by simp [ho]))
+
 end Tongo.C16
